@@ -152,13 +152,15 @@ def norm_wsgi(ev):
 
 # ------------------------------------------------------------------ ASGI
 def run_asgi(app, scope: Dict[str, Any], receive_script: Optional[List[Dict[str, Any]]] = None, send_fault_at: Optional[int] = None,
-             use_loop: bool = False):
+             use_loop: bool = False, receive_raises: bool = False):
     """returns (events, completed). events: ('send', message) | ('raise', exc)"""
     ev: List[Tuple] = []
     script = list(receive_script or [])
     state = {"sends": 0}
 
     async def receive():
+        if receive_raises:  # e.g. baize.asgi.empty_receive, or a server whose channel is already closed for reading
+            raise NotImplementedError("this receive channel cannot be read")
         if script:
             return script.pop(0)
         if use_loop:
